@@ -316,6 +316,12 @@ impl Check for C09 {
                         if total > 0.0 && total.is_finite() {
                             offs_a.extend([-total, -2.0 * total, -0.0, -f32::from_bits(total.to_bits() - 1), -f32::from_bits(total.to_bits() + 1), total]);
                         }
+                        // minus the sum of the last two / the last four entries of the period
+                        let per: Vec<f32> = if arr.len() % 2 == 1 { arr.iter().chain(arr.iter()).cloned().collect() } else { arr.clone() };
+                        if per.len() >= 4 {
+                            offs_a.push(-(per[per.len() - 1] + per[per.len() - 2]));
+                            offs_a.push(-(per[per.len() - 1] + per[per.len() - 2] + per[per.len() - 3] + per[per.len() - 4]));
+                        }
                     }
                     let nfixed = offs.len();
                     for (oi, &off) in offs_a.iter().enumerate() {
